@@ -503,6 +503,20 @@ pub fn batch_main(b: &BatchArgs) -> BatchOut {
             from = to;
         }
     }
+    // determinism sample: the first chunks run a second time, with EXACTLY the same boundaries, in
+    // processes of their own - started now, next to the first run, and compared afterwards
+    let mut det_children: Vec<(String, std::process::Child)> = Vec::new();
+    if b.determinism_sample > 0 && !b.no_yield {
+        let n = b.determinism_sample.min(b.scenarios);
+        let span = (n * b.hash_every.max(1)).min(b.scenarios);
+        for (k, (from, to)) in chunks.iter().enumerate() {
+            if *from >= span || k >= 4 {
+                break;
+            }
+            let tag = format!("{}-det{}", b.tag, k);
+            det_children.push((tag.clone(), spawn_worker(b, &pool_path, &refs_path, *from, *to, &tag, false)));
+        }
+    }
     let mut worker_outs: Vec<WorkerOut> = Vec::new();
     let mut rerun: Vec<(u64, u64)> = Vec::new();
     let mut running: Vec<(String, u64, u64, std::process::Child)> = Vec::new();
@@ -599,16 +613,7 @@ pub fn batch_main(b: &BatchArgs) -> BatchOut {
         // must agree if the simulator and the library are deterministic. (Re-running a scenario
         // behind different predecessors may legitimately take another schedule on a tree with a
         // process-wide cache: its miss path has more scheduling points than its hit path.)
-        let n = b.determinism_sample.min(b.scenarios);
-        let span = (n * b.hash_every.max(1)).min(b.scenarios);
-        let mut chs = Vec::new();
-        for (k, (from, to)) in chunks.iter().enumerate() {
-            if *from >= span || k >= 8 {
-                break;
-            }
-            let tag = format!("{}-det{}", b.tag, k);
-            chs.push((tag.clone(), spawn_worker(b, &pool_path, &refs_path, *from, *to, &tag, false)));
-        }
+        let chs = std::mem::take(&mut det_children);
         for (tag, mut ch) in chs {
             let _ = ch.wait();
             if let Ok(s) = std::fs::read_to_string(format!("{}/work-{}.json", b.work_dir, tag)) {
